@@ -32,6 +32,7 @@ def run(chk):
     chk.assumptions = ["the marker lines are written with eprintln so that a full stdout cannot hide them",
                        "EACCES needs the child to drop privileges to uid nobody; when that is impossible the rows are reported as not exercised"]
     chk.floor = 60
+    chk.rule += '; plus flush / write on handles that are not regular files (/dev/null, /dev/zero, /dev/full with nothing buffered, a FIFO, /dev/stdout, /dev/stderr; empty, after a write, twice, write after flush): a value and DONE, never a runtime error'
     chk.rule += '; plus standard input that is a directory for every reader of stdin, records whose captured length exceeds the snap length while the wire length does not (files and stdin streams)'
     work = core.scratch_dir()
     os.chmod(work, 0o755)
@@ -178,6 +179,21 @@ def run(chk):
             ("pcap_read_next", "truncated-record-is-null-or-error", "pcap_read_next(pcap_open(%s))" % lit(trunc), {"either": True}),
             ("write", "healthy", "write(open(%s, \"w\"), \"ok\")" % lit(os.path.join(work, "out.txt")), {}),
         ]
+        # handles on files that are not regular files (character devices, a FIFO whose reader is this process, the standard
+        # streams by path): flush / write may or may not meet an OS failure there - whichever it is, the outcome is a value
+        # (error object or not) and the program continues, never a runtime error
+        fifo = os.path.join(work, "fifo")
+        os.mkfifo(fifo)
+        fifo_fd = os.open(fifo, os.O_RDWR | os.O_NONBLOCK)
+        for tgt, mode in (("/dev/null", "w"), ("/dev/null", "a"), ("/dev/zero", "w"), ("/dev/full", "w"), (fifo, "w"), ("/dev/stderr", "a"), ("/dev/stdout", "w"),
+                          (os.path.join(work, "plain-out.txt"), "w")):
+            nm = os.path.basename(tgt) + "-" + mode
+            opn = "let sf = open(%s, \"%s\");" % (lit(tgt), mode)
+            H += [("flush", "special-%s-empty" % nm, "flush(sf)", {"pre": opn, "either": True}),
+                  ("flush", "special-%s-twice" % nm, "flush(sf)", {"pre": opn + " flush(sf);", "either": True})]
+            if tgt != "/dev/full":
+                H += [("flush", "special-%s-after-write" % nm, "flush(sf)", {"pre": opn + " write(sf, \"abc\");", "either": True}),
+                      ("write", "special-%s-after-flush" % nm, "write(sf, \"def\")", {"pre": opn + " write(sf, \"abc\"); flush(sf);", "either": True, "post": "flush(sf);"})]
         # standard input that cannot be read (a directory, a closed descriptor) for every reader of stdin; records whose
         # captured length exceeds the snap length while the wire length does not (and the other way round)
         M += [("read", "EISDIR-stdin", "read(stdin)", {"stdin_dir": adir}), ("read", "EISDIR-stdin-n", "read(stdin, 10)", {"stdin_dir": adir}),
